@@ -11,8 +11,10 @@ pub fn resp_datum() -> impl Strategy<Value = RespDatum> {
         1 => prop_oneof![any::<u64>(), Just(u64::MAX)].prop_map(RespDatum::U64),
         1 => any::<bool>().prop_map(RespDatum::Bool),
         3 => prop_oneof![
-            2 => proptest::collection::vec(0u8..128, 0..12),
-            2 => "[a-z\";, \\n]{0,10}".prop_map(String::into_bytes),
+            4 => proptest::collection::vec(0u8..128, 0..12),
+            4 => "[a-z\";, \\n]{0,10}".prop_map(String::into_bytes),
+            // long strings with quotes at arbitrary offsets (chunked escaping, 64 / 128 / 256 byte boundaries)
+            1 => (56usize..140, proptest::collection::vec(0usize..140, 0..4)).prop_map(|(n, qs)| { let mut v = vec![b'a'; n]; for q in qs { if q < n { v[q] = b'"'; } } v }),
         ].prop_map(|v| RespDatum::Str(B(v))),
         2 => prop_oneof![
             3 => proptest::collection::vec(any::<u8>(), 0..14),
@@ -26,7 +28,15 @@ pub fn resp_datum() -> impl Strategy<Value = RespDatum> {
 
 /// Response part of a plan: 0..2 headers and 1..5 data.
 pub fn response() -> impl Strategy<Value = (Vec<B>, Vec<RespDatum>)> {
-    (proptest::collection::vec("[A-Z][A-Za-z0-9]{0,5}".prop_map(B::from), 0..3), proptest::collection::vec(resp_datum(), 1..6))
+    (
+        proptest::collection::vec(prop_oneof![4 => "[A-Z][A-Za-z0-9]{0,5}", 1 => "[A-Z][A-Za-z0-9]{6,11}"].prop_map(B::from), 0..4),
+        prop_oneof![
+            300 => proptest::collection::vec(resp_datum(), 1..6),
+            10 => proptest::collection::vec(resp_datum(), 6..24),
+            // more than 255 data elements in one response unit
+            1 => (prop::sample::select(vec![255usize, 256, 257, 258, 300, 513]), any::<u8>()).prop_map(|(n, a)| (0..n).map(|i| RespDatum::U8(a.wrapping_add(i as u8))).collect::<Vec<_>>()),
+        ],
+    )
 }
 
 /// A plan per unit that consumes exactly the unit's data (greedy) and, for
